@@ -355,7 +355,7 @@ func vfC16Run(c vfC16Case, withReq bool) *vfC16Obs {
 	go func() { wg.Wait(); close(waited) }()
 	select {
 	case <-waited:
-	case <-time.After(5 * time.Second):
+	case <-time.After(30 * time.Second):
 		setFail("service requests are blocked for good: the frame loop stopped while holding the snapshot lock")
 	}
 	if s := fail.Load(); s != nil && o.msg == "" {
